@@ -4,6 +4,7 @@ Property C09 — annotate accumulates information and never drops any.
 import ReuseVerif.Lemmas.History
 import ReuseVerif.Lemmas.C09Step
 import ReuseVerif.Lemmas.C09LineEndings
+import ReuseVerif.Lemmas.C09Merge
 import ReuseVerif.Theorems.C07
 import ReuseVerif.Theorems.C20
 
@@ -317,6 +318,64 @@ theorem C09_merge_years (lines : List Text) (stmt : Text) :
   obtain ⟨lo, hi, h1, h2, h3, h4, h5⟩ := (C20.C20_merge_year_span _ stmt).2 y hy
   exact ⟨lo, hi, h1, h2, h3, h4, h5, (C20.C20_merge_year_covers _ stmt lo hi h3 h4).1⟩
 
+/-! ### `--merge-copyrights`, the whole file -/
+
+/-- **The transfer every successful step makes** (any template, merging or not; hypotheses of `C09_step` without the one
+    about merging): every notice, expression and contributor of the old text is in the new text or stood in the replaced
+    header block, and everything the new header block holds is in the new text.  (What `create_header` puts into the new
+    block is then the business of the guard: `C07_guard`, `C09_step_header`, `C09_merge`.) -/
+theorem C09_step_transfer {norm : Text → Text} {o : Op} {t t' : Text}
+    (hw : annotateText o.c o.replace o.skipExisting o.info t = .written t') (h : C09L.StepHyps norm o t t') :
+    ∃ hdr, createHeader o.c o.info (sectionsOf o.c o.replace t).2.1 = .ok hdr ∧
+      (∀ x ∈ (extractRaw t).cpr, x ∈ (extractRaw t').cpr ∨ x ∈ (extractRaw (sectionsOf o.c o.replace t).2.1).cpr) ∧
+      (∀ x ∈ (extractRaw hdr).cpr, x ∈ (extractRaw t').cpr) ∧
+      (∀ x ∈ (extractRaw t).lic, x ∈ (extractRaw t').lic ∨ x ∈ (extractRaw (sectionsOf o.c o.replace t).2.1).lic) ∧
+      (∀ x ∈ (extractRaw hdr).lic, x ∈ (extractRaw t').lic) ∧
+      (∀ x ∈ (extractRaw t).con, x ∈ (extractRaw t').con ∨ x ∈ (extractRaw (sectionsOf o.c o.replace t).2.1).con) ∧
+      (∀ x ∈ (extractRaw hdr).con, x ∈ (extractRaw t').con) :=
+  C09L.step_transfer hw h
+
+/-- **One step with `--merge-copyrights`, the whole file** — what `C09_merge` and `C09_merge_years` give for the file.
+    With the hypotheses of `C09_step` (`Spec.stepGoodMerge`: the same, merging given):
+    * licence expressions: as without merging — everything the old text declared and everything requested;
+    * a notice of the old text is declared verbatim by the new text unless it stood in the replaced block;
+    * the notices that are merged are `Spec.mergePool` = the requested ones and those of the replaced block; for every one
+      of them, with holder (statement) `m.statement`, the new text declares the holder's merged line
+      `lineFor … m.statement`, and that line ends with the holder: **no holder is lost**;
+    * the year range written into that line runs from the numerically smallest to the numerically largest year stated
+      for the holder in the pool, and every stated year lies between the two (`C09_merge_years`, `C20_merge_year_covers`). -/
+theorem C09_step_merge {norm : Text → Text} {o : Op} {t t' : Text}
+    (hw : annotateText o.c o.replace o.skipExisting o.info t = .written t') (hg : stepGoodMerge norm o t) :
+    (∀ x, x ∈ (extractRaw t).lic ∨ x ∈ o.info.lic → norm x ∈ (extractRaw t').lic.map norm) ∧
+    (∀ x ∈ (extractRaw t).cpr, x ∈ (extractRaw t').cpr ∨ x ∈ (extractRaw (sectionsOf o.c o.replace t).2.1).cpr) ∧
+    (∀ l, l ∈ mergePool o t ↔ l ∈ o.info.cpr ∨ l ∈ (extractRaw (sectionsOf o.c o.replace t).2.1).cpr) ∧
+    (∀ l m, l ∈ mergePool o t → searchLine l = some m →
+      lineFor (parseLines Generated.endRe (mergePool o t)) m.statement ∈ (extractRaw t').cpr ∧
+      m.statement <:+ lineFor (parseLines Generated.endRe (mergePool o t)) m.statement) ∧
+    (∀ stmt y, mergedYear (yearsOf (parseLines Generated.endRe (mergePool o t)) stmt) = some y →
+      ∃ lo hi, yearMin (yearsOf (parseLines Generated.endRe (mergePool o t)) stmt) = some lo ∧
+        yearMax (yearsOf (parseLines Generated.endRe (mergePool o t)) stmt) = some hi ∧
+        (y = lo ∨ y = lo ++ " - ".toList ++ hi) ∧
+        (∀ z ∈ yearsOf (parseLines Generated.endRe (mergePool o t)) stmt, yearVal lo ≤ yearVal z ∧ yearVal z ≤ yearVal hi)) := by
+  obtain ⟨h1, h2, h3⟩ := C09L.step_merge hw hg
+  refine ⟨h1, h2, fun l => C09L.mem_mergePool, h3, fun stmt y hy => ?_⟩
+  obtain ⟨lo, hi, _, _, a, b, c, d⟩ := (C09_merge_years (mergePool o t) stmt).1 y hy
+  exact ⟨lo, hi, a, b, c, d⟩
+
+/-- **A history with merging steps.**  By induction over any finite list of invocations, each successful step either good
+    for `C09_step` or — with `--merge-copyrights` — good for `C09_step_merge` with its merged lines reading back their holder
+    and year ends (`Spec.mergeReadsBack`, decidable; `Spec.GoodRunAny`):
+    * the final text declares every licence expression the initial text declared and every one requested;
+    * **the same holders remain**: every holder the reader finds in a notice of the initial text or of a request is a holder
+      it finds in the final text;
+    * **each with a year range covering all years stated before**: every year stated for a holder in the initial text or in
+      a request lies, numerically, between two years the final text states for that holder. -/
+theorem C09_history_merge {norm : Text → Text} (t : Text) (ops : List Op) (hg : GoodRunAny norm t ops) :
+    (∀ x, x ∈ (extractRaw t).lic ∨ x ∈ (accumulated t ops).2 → norm x ∈ (extractRaw (run t ops)).lic.map norm) ∧
+    (∀ s, s ∈ holdersOf ((extractRaw t).cpr ++ (accumulated t ops).1) → s ∈ holdersOf (extractRaw (run t ops)).cpr) ∧
+    (∀ s z, z ∈ yearsIn ((extractRaw t).cpr ++ (accumulated t ops).1) s → YearCovered (extractRaw (run t ops)).cpr s z) :=
+  C09L.history_any t ops hg
+
 /-! ### `ReuseInfo.union` as the model has it -/
 
 /-- the union of two sets of lines is commutative and idempotent as a set, and contains both -/
@@ -333,5 +392,17 @@ theorem C09_union_algebra (a b : List Text) (x : Text) :
 -- `history` stream (op `c09step`): they hold on roughly 90 of the ~450 steps of a quick run, and there the real
 -- file must show the conclusion of C09_step_partial.
 example (t : Text) : GoodRun id t [] := GoodRun.nil t
+
+-- The new hypotheses.  The seam predicates are plain list functions and `decide` evaluates them; `stepGoodFull` as a whole
+-- involves the regex matcher through `createHeader`, so — as above — the compiled driver evaluates it on every step of every
+-- history (op `c09full`): it holds on 192 of the 195 steps of a quick run that write without `--merge-copyrights` (the old
+-- `stepGood`: 128), and there the real file must show the conclusions of C09_step / C09_step_contributors.
+example : cleanSeam "#!/bin/sh\n\n".toList = true ∧ cleanSeam "#!/bin/sh \n".toList = false := by decide
+example : openEnd "# SPDX-License-Identifier: MIT\n".toList = false ∧ openEnd "<x a=\"MIT\" \n".toList = true := by decide
+example : lineEnded "a\n".toList = true ∧ lineEnded "a".toList = false := by decide
+example : ¬ EndGuarded (.star (.cls false [('\n', '\n')])) := by decide
+example (t : Text) : GoodRunFull id t [] := GoodRunFull.nil t
+example (t : Text) : GoodRunAny id t [] := GoodRunAny.nil t
+example : endYears ["2019".toList, "2023".toList, "２０１６".toList] = ["２０１６".toList, "2023".toList] := by decide
 
 end C09
